@@ -20,8 +20,8 @@ Lemma cw_facts :
   cw_opt_is f_cw_number_fixed6 (fun b => b = true) /\
   (* the writer applies the identifier regex to the WHOLE string (the fix of F-C17-a is in place) *)
   cw_src_mode = CwMatch /\
-  (* F-C17-c, -d, -e are fixed: whole chunk copied, template names escaped, exactly two name parts *)
-  cw_chunk_whole = true /\ cw_src_import_escaped = true /\ cw_src_name_exact = true /\
+  (* F-C17-b, -c, -d, -e are fixed: whole chunk copied, template names escaped, exactly two name parts, numbers round-trip *)
+  cw_chunk_whole = true /\ cw_src_import_escaped = true /\ cw_src_name_exact = true /\ cw_src_number_roundtrip = true /\
   (* every keyword of the lexer that the writer does not know is one of `debugger`, `in`: such a bare key
      makes the object fail to compile (nothing is created), it cannot inject *)
   filter (fun k => negb (cw_mem k cw_writer_keywords)) cw_lexer_keywords =
